@@ -12,6 +12,7 @@ import types
 
 import taskiq.api.scheduler as api
 import taskiq.cli.scheduler.run as run
+import patchall
 from taskiq.abc.broker import AsyncBroker
 from taskiq.abc.schedule_source import ScheduleSource
 from taskiq.schedule_sources.label_based import LabelScheduleSource
@@ -138,6 +139,7 @@ def make_asyncio_shim():
 
 def setup(opts):
     run.datetime = VDT
+    patchall.replace_everywhere(dt.datetime, VDT)   # wherever else the package reads the clock
     run.delayed_send = delayed_send_shim
     run.get_task_delay = get_task_delay_shim
     run.asyncio = make_asyncio_shim()
